@@ -173,7 +173,9 @@ PROPS = {
         assumptions=["well-formed images: string indices inside the table"],
         min_distinct=dict(quick=1500, thorough=150000),
         required_counters=["parsed.pdos", "parsed.sync_managers", "parsed.fmmu_ex", "parsed.string", "raw.odd_len", "raw.even_len", "chunk.4", "chunk.8", "e2e_raw_reads", "name_too_long_for_capacity"],
-        runs=[native("sii-release", "c12", "release"), native("sii-debug", "c12", "debug", args={"scale-pct": dict(quick=25, thorough=5)})],
+        runs=[native("sii-release", "c12", "release"), native("sii-debug", "c12", "debug", args={"scale-pct": dict(quick=25, thorough=5)}),
+              # the parser's unsafe spots (set_len over not yet written bytes, from_utf8_unchecked) under Miri
+              native("sii-miri", "c12", "miri", args={"cases-total": dict(quick=16, thorough=800), "case-offset": 1000000}, shards=16, timeout=7200)],
     ),
     "C13": dict(
         level="exploration",
@@ -186,7 +188,9 @@ PROPS = {
         assumptions=[],
         min_distinct=dict(quick=12000, thorough=800000),
         required_counters=["image.wrap-to-self", "image.wrap-to-earlier", "image.category-len-ffff", "image.size-word-large", "image.string-index-past-table", "image.pdo-255x255", "image.blank-zero", "image.blank-ones", "image.next-header-at-top-of-address-space", "image.string-table-count-zero", "init_runs", "query.tx_pdos"],
-        runs=[native("sii-fuzz-release", "c13", "release"), native("sii-fuzz-debug", "c13", "debug", args={"scale-pct": dict(quick=60, thorough=20)})],
+        runs=[native("sii-fuzz-release", "c13", "release"), native("sii-fuzz-debug", "c13", "debug", args={"scale-pct": dict(quick=60, thorough=20)}),
+              # hostile images through the same queries under Miri: an out-of-bounds index or an invalid str is a tool report
+              native("sii-fuzz-miri", "c13", "miri", args={"cases-total": dict(quick=64, thorough=3200), "case-offset": 1000000, "no-init": dict(quick=1, thorough=0)}, shards=16, timeout=7200)],
     ),
     "C14": dict(
         level="fault_enumeration",
